@@ -224,7 +224,10 @@ def load_model(file_name: StrOrPath, format_name: str | None = None, **kwargs: A
         Model instance created from the file.
     """
     io = get_project_io(format_name or infer_file_format(file_name))
-    model = io.load_model(Path(file_name).as_posix(), **kwargs)
+    # A yml string is content, not a path (``Path`` would e.g. collapse ``//`` inside it).
+    model = io.load_model(
+        str(file_name) if format_name == "yml_str" else Path(file_name).as_posix(), **kwargs
+    )
     model.source_path = Path(file_name).as_posix()
     return model
 
@@ -287,8 +290,9 @@ def load_parameters(file_name: StrOrPath, format_name: str | None = None, **kwar
     .. # noqa: D414
     """
     io = get_project_io(format_name or infer_file_format(file_name))
+    # A yml string is content, not a path (``Path`` would e.g. collapse ``//`` in an expression).
     parameters = io.load_parameters(
-        Path(file_name).as_posix(),
+        str(file_name) if format_name == "yml_str" else Path(file_name).as_posix(),
         **kwargs,
     )
     parameters.source_path = Path(file_name).as_posix()
@@ -352,7 +356,10 @@ def load_scheme(file_name: StrOrPath, format_name: str | None = None, **kwargs: 
     """
     io = get_project_io(format_name or infer_file_format(file_name))
 
-    scheme = io.load_scheme(Path(file_name).as_posix(), **kwargs)
+    # A yml string is content, not a path (``Path`` would e.g. collapse ``//`` inside it).
+    scheme = io.load_scheme(
+        str(file_name) if format_name == "yml_str" else Path(file_name).as_posix(), **kwargs
+    )
     scheme.source_path = Path(file_name).as_posix()
     return scheme
 
